@@ -95,6 +95,37 @@ def stage(ctx, rng, glayout, gmodel, tb):
     for k in list(range(0, 21)) + [31, 32, 40, 63]:
         hs = [0, 1, (1 << k) - 1, 1 << k, (1 << 64) - 1] + [rng.next() for _ in range(20)]
         add({"op": "mask", "cap": 1 << k, "hashes": hs}, "mask %d %s" % (1 << k, " ".join(str(h) for h in hs)), "mask")
+    # the REAL inline / reference predicates of StringView and StringPtr, every length 0..40 (and some long ones)
+    plens = list(range(0, 41)) + [64, 255, 256, 4096, 70000]
+    add({"op": "strpred", "lens": plens}, "strpred " + " ".join(str(x) for x in plens), "strpred2")
+    # the REAL compute_heap_sizes: validity masks x array selections x NON-IDENTITY row selections x lengths around 12
+    LEN_POOL = [0, 1, 11, 12, 12, 13, 13, 14, 20, 40, 100]
+    for _ in range(400 if quick else 20000):
+        narr = 1 + rng.below(3)
+        nvals = 1 + rng.below(24)
+        arrs, mlines, nlog = [], [], None
+        use_sel = rng.chance(40)
+        nlogical = nvals if not use_sel else 1 + rng.below(24)
+        for _a in range(narr):
+            vals = [None if rng.chance(30) else rng.choice(LEN_POOL) for _ in range(nvals)]
+            sel = [rng.below(nvals) for _ in range(nlogical)] if use_sel else None
+            arrs.append({"values": vals, "select": sel})
+            eff = sel if sel is not None else list(range(nvals))
+            mlines.append("%s;%s;%s" % ("".join("1" if vals[i] is not None else "0" for i in eff), ",".join(str(i) for i in eff),
+                                        ",".join(str(v or 0) for v in vals)))
+        mode = rng.below(4)
+        if mode == 0:
+            rows = list(range(nlogical))                                  # identity
+        elif mode == 1:
+            rows = sorted(set(rng.below(nlogical) for _ in range(1 + rng.below(nlogical))))   # ascending subset (new groups)
+        elif mode == 2:
+            rows = rng.shuffle(list(range(nlogical)))[:1 + rng.below(nlogical)]
+        else:
+            rows = [rng.below(nlogical) for _ in range(1 + rng.below(2 * nlogical))]          # with repeats
+        add({"op": "heapsizes", "arrays": arrs, "rows": rows}, "heapsizes %s %s" % (",".join(str(r) for r in rows) or "-", " ".join(mlines)), "heapsizes")
+    # the seeded-bug shape: ascending subset selection, a NULL at the batch index equal to a long key's ordinal
+    add({"op": "heapsizes", "arrays": [{"values": [20, None, 30, 13, None, 40], "select": None}], "rows": [2, 3, 5]},
+        "heapsizes 2,3,5 101101;0,1,2,3,4,5;20,0,30,13,0,40", "heapsizes")
     # aggregate layouts: real (size, align) of the states feed the model
     agg_cases = []
     for _ in range(300 if quick else 8000):
@@ -147,6 +178,16 @@ def stage(ctx, rng, glayout, gmodel, tb):
                 mism.append({"case": "strview", "real": {k2: v for k2, v in r.items() if k2 != "inline"}, "what": "MAX_INLINE_LEN / size_of::<StringPtr>() differ from the model's constants"})
         elif k == "mask":
             want = "offs=%s next=%s" % (csv(r["offsets"]), csv(r["next"]))
+        elif k == "strpred2":
+            # real flags == the predicates scanned from the source, and the modelled round trip is safe for every length
+            want = " ".join(f + ("i" if f[0] == "1" else "r") + "s" for f in r["flags"])
+        elif k == "heapsizes":
+            sz = r["sizes"]
+            offs, tot = [], 0
+            for x in sz:
+                offs.append(tot)
+                tot += x
+            want = "sizes=%s offsets=%s total=%d" % (csv(sz), csv(offs), tot)
         if want != m:
             mism.append({"case": {k2: v for k2, v in c.items() if k2 != "id"}, "real": want, "model": m})
         distinct.add((k, m[:60]))
@@ -167,6 +208,159 @@ def stage(ctx, rng, glayout, gmodel, tb):
     sample = {"types": cases[60]["types"], "real": {k2: v for k2, v in real_main[60].items() if k2 in ("offsets", "row_width", "validity_width")}, "model": mout[60]}
     return {"n": n, "mismatches": mism, "distinct": len(distinct), "counts": counts, "agg_bind_errors": agg_bind_err,
             "state_alignments_seen": sorted(aligns), "sample": sample}
+
+
+def stage_rowtrip(ctx, rng, glayout):
+    """strings of every length around the inline threshold through a REAL RowCollection (append twice, scan back):
+    what comes back is what went in.  A crash of the harness process is reported as an abort."""
+    quick = ctx["tier"] == "quick"
+    cases = [{"id": "t0", "op": "rowtrip", "cols": [list(range(0, 41))], "block_capacity": 16},
+             {"id": "t1", "op": "rowtrip", "cols": [[12] * 20, [11, 12, 13, None] * 5], "block_capacity": 3}]
+    for i in range(120 if quick else 4000):
+        n = 1 + rng.below(40)
+        cols = [[None if rng.chance(20) else rng.choice([0, 1, 4, 11, 12, 12, 12, 13, 13, 14, 24, 100, 300]) for _ in range(n)] for _ in range(1 + rng.below(3))]
+        cases.append({"id": "t%d" % (i + 2), "op": "rowtrip", "cols": cols, "block_capacity": rng.choice([1, 2, 3, 7, 16, 64])})
+    res = common.run_harness(glayout, [], cases, timeout=600)
+    bad, n = [], 0
+    for c, r in zip(cases, res):
+        n += sum(len(x) for x in c["cols"])
+        if "cols" not in r:
+            bad.append({"what": "RowCollection round trip of strings around the inline threshold crashed / failed", "case": {k: v for k, v in c.items() if k != "id"}, "result": str(r)[:400]})
+            continue
+        want = [x + x for x in r["sent"]]
+        if r["cols"] != want:
+            col = [i for i, (a, b) in enumerate(zip(r["cols"], want)) if a != b][0]
+            row = [i for i, (a, b) in enumerate(zip(r["cols"][col], want[col])) if a != b]
+            bad.append({"what": "a string written to a row block is read back differently", "case": {k: v for k, v in c.items() if k != "id"},
+                        "column": col, "first_row": row[:1], "sent": want[col][row[0]] if row else None, "got": r["cols"][col][row[0]] if row else None})
+    return {"n": n, "bad": bad, "cases": len(cases)}
+
+
+MB12 = ["éééééé", "日本語日", "ab日本語x", "😀😀😀", "ñandúñandú"[:0] + "ññññññ"]        # exactly 12 bytes of UTF-8
+MB_OTHER = ["ééééé1", "日本語日x", "😀😀😀a", "éééééé1"]                                  # 11 and 13 bytes
+
+
+def sql_lit(x):
+    return "null" if x is None else "'" + x.replace("'", "''") + "'"
+
+
+def stage_strings_sql(ctx, rng, gverif):
+    """C16-a at the query level: strings of 11, 12, 13 bytes (ASCII and multi-byte) as GROUP BY keys, hash join
+    keys, ORDER BY keys and payloads, DISTINCT; partitions 1 and 4.
+    C16-b: GROUP BY on a nullable long-string column where most rows hit existing groups, NULLs interleaved,
+    batch sizes 2..64.  Results are compared with the answers computed here."""
+    quick = ctx["tier"] == "quick"
+    keys = ["a" * 11, "b" * 12, "c" * 13, "abcdefghijkl", "abcdefghijk", "abcdefghijklm", "zzzzzzzzzzzz", "", "x"] + MB12 + MB_OTHER
+    for k in keys:
+        assert k in MB_OTHER or k not in MB12 or len(k.encode()) == 12
+    rows = []
+    for i, k in enumerate(keys):
+        for j in range(3):
+            rows.append((k, i * 10 + j, keys[(i + j) % len(keys)]))
+    rows += [(None, 900, "b" * 12), (None, 901, None), ("b" * 12, 902, None)]
+    rows = rng.shuffle(rows)
+    setup = ["create temp table s (k text, v int, p text)",
+             "insert into s values " + ", ".join("(%s, %d, %s)" % (sql_lit(k), v, sql_lit(p)) for k, v, p in rows),
+             "create temp table s2 (k text, w int)",
+             "insert into s2 values " + ", ".join("(%s, %d)" % (sql_lit(k), i) for i, k in enumerate(keys + [None, "nomatch12byt"]))]
+
+    def cell(x):
+        return "N" if x is None else "S" + x
+
+    def bkey(x):
+        return (1, b"") if x is None else (0, x.encode())
+
+    exp = {}
+    grp = {}
+    for k, v, p in rows:
+        g = grp.setdefault(k, [0, 0, None])
+        g[0] += 1
+        g[1] += v
+        if p is not None and (g[2] is None or p.encode() < g[2].encode()):
+            g[2] = p
+    exp["select k, count(*), sum(v), min(p) from s group by k"] = ("bag", [[cell(k), "I%d" % c, "I%d" % sm, cell(mp)] for k, (c, sm, mp) in grp.items()])
+    exp["select distinct k from s"] = ("bag", [[cell(k)] for k in grp])
+    exp["select distinct p, k from s"] = ("bag", [[cell(p), cell(k)] for p, k in set((p, k) for k, _, p in rows)])
+    w_of = {k: i for i, k in enumerate(keys)}
+    exp["select a.k, a.v, a.p, b.w from s a join s2 b on a.k = b.k"] = ("bag", [[cell(k), "I%d" % v, cell(p), "I%d" % w_of[k]] for k, v, p in rows if k is not None])
+    exp["select b.k, count(*) from s2 b join s a on a.p = b.k group by b.k"] = ("bag", [[cell(k), "I%d" % sum(1 for _, _, p in rows if p == k)] for k in keys if any(p == k for _, _, p in rows)])
+    srt = sorted(rows, key=lambda r: (bkey(r[0]), r[1]))
+    exp["select k, p, v from s order by k, v"] = ("list", [[cell(k), cell(p), "I%d" % v] for k, v, p in srt])
+    srt2 = sorted(rows, key=lambda r: r[1])
+    exp["select p, k from s order by v"] = ("list", [[cell(p), cell(k)] for k, v, p in srt2])
+    srt3 = sorted(rows, key=lambda r: (bkey(r[2]), r[1]), reverse=False)
+    exp["select p, v from s order by p, v limit 17"] = ("list", [[cell(p), "I%d" % v] for k, v, p in srt3][:17])
+    nn = [k for k, _, _ in rows if k is not None]
+    exp["select min(k), max(k), count(k) from s"] = ("bag", [[cell(min(nn, key=lambda x: x.encode())), cell(max(nn, key=lambda x: x.encode())), "I%d" % len(nn)]])
+    queries = list(exp)
+    cases = []
+    for parts in (1, 4):
+        for bs in ((2048, 5) if quick else (2048, 5, 2, 16)):
+            cases.append({"id": "a-%d-%d" % (parts, bs), "mode": "threaded", "threads": parts, "timeout_s": 60,
+                          "stmts": setup + ["set partitions to %d" % parts, "set batch_size to %d" % bs] + queries})
+    # ---- C16-b
+    pool = ["key-%02d-" % i + "y" * (6 + (i * 7) % 30) for i in range(48)]     # 13..42 bytes, all non-inline
+    gcases = []
+    nb = 0
+    for bs in ((2, 3, 4, 8, 16, 64) if quick else (2, 3, 4, 5, 7, 8, 16, 32, 64)):
+        for rep in range(2 if quick else 6):
+            n = 300
+            grows, seen = [], []
+            for i in range(n):
+                r = rng.below(100)
+                if r < 27:
+                    grows.append(None)
+                elif seen and r < 78:
+                    grows.append(rng.choice(seen))          # an existing group
+                else:
+                    k = rng.choice(pool)
+                    grows.append(k)
+                    if k not in seen:
+                        seen.append(k)
+            cnt = {}
+            for k in grows:
+                cnt[k] = cnt.get(k, 0) + 1
+            want = sorted([cell(k), "I%d" % c, ("I%d" % len(k)) if k is not None else "N"] for k, c in cnt.items())
+            for parts in (1, 4):
+                nb += 1
+                gcases.append(({"id": "b-%d-%d-%d" % (bs, rep, parts), "mode": "threaded", "threads": parts, "timeout_s": 60,
+                                "stmts": ["create temp table g (k text, v int)",
+                                          "insert into g values " + ", ".join("(%s, %d)" % (sql_lit(k), i) for i, k in enumerate(grows)),
+                                          "set partitions to %d" % parts, "set batch_size to %d" % bs,
+                                          "select k, count(*), max(length(k)) from g group by k"]}, want))
+    res = common.run_harness(gverif, "sql", cases + [c for c, _ in gcases], timeout=1200)
+    bad, nq = [], 0
+    for c, r in zip(cases, res[:len(cases)]):
+        rs = r.get("results")
+        if rs is None or len(rs) < len(c["stmts"]):
+            last = (rs or [{}])[-1] if rs else {}
+            bad.append({"what": "engine died / stopped on strings around the inline threshold (%s)" % c["id"], "stmts": c["stmts"][:len(setup) + 2] + [queries[min(max(len(rs or []) - len(setup) - 2, 0), len(queries) - 1)]],
+                        "result": str({k: v for k, v in r.items() if k != "results"})[:300] + str(last)[:300]})
+            continue
+        for q, out in zip(queries, rs[len(setup) + 2:]):
+            nq += 1
+            kind, want = exp[q]
+            if not out.get("ok"):
+                bad.append({"what": "query over strings around the inline threshold fails", "sql": q, "stmts": c["stmts"][:len(setup) + 2] + [q], "result": str(out)[:300]})
+                continue
+            got = out["rows"]
+            ok = (got == want) if kind == "list" else (sorted(got) == sorted(want))
+            if not ok:
+                diff = [x for x in got if x not in want][:3]
+                bad.append({"what": "wrong answer over strings of 11/12/13 bytes (row format inline threshold)", "sql": q, "config": c["id"],
+                            "stmts": c["stmts"][:len(setup) + 2] + [q], "unexpected_rows": diff, "got_rows": len(got), "want_rows": len(want)})
+    for (c, want), r in zip(gcases, res[len(cases):]):
+        nq += 1
+        rs = r.get("results")
+        last = rs[-1] if rs else {}
+        if rs is None or len(rs) < len(c["stmts"]) or not last.get("ok"):
+            bad.append({"what": "GROUP BY on a nullable long-string key: engine died / failed (heap sizes)", "stmts": c["stmts"], "result": (str({k: v for k, v in r.items() if k != "results"}) + str(last))[:400]})
+            continue
+        got = sorted(last["rows"])
+        if got != want:
+            bad.append({"what": "GROUP BY on a nullable long-string key gives wrong groups (heap sizes of newly appended group keys)", "stmts": c["stmts"],
+                        "config": c["id"], "unexpected_rows": [x for x in got if x not in want][:3], "missing_rows": [x for x in want if x not in got][:3]})
+    return {"n": nq, "bad": bad, "cases_a": len(cases), "cases_b": len(gcases)}
 
 
 def stage_sql(gverif):
@@ -196,6 +390,12 @@ def run(ctx):
     s = stage(ctx, rng, glayout, gmodel, tb)
     for m in s["mismatches"][:30]:
         out["violations"].append({"what": m.get("what", "real layout / block arithmetic differs from the model (model/Layout.v)"), "replay": m, "no_input": False})
+    rt = stage_rowtrip(ctx, rng, glayout)
+    for m in rt["bad"][:15]:
+        out["violations"].append({"what": m["what"], "replay": m, "no_input": False})
+    sq = stage_strings_sql(ctx, rng, gverif)
+    for m in sq["bad"][:15]:
+        out["violations"].append({"what": m["what"], "replay": m, "no_input": False})
     sql, last, raw = stage_sql(gverif)
     listed = {k["id"]: k for k in common.known_findings()["known"] if k["property"] == PID}
     if last.get("ok"):
@@ -218,7 +418,10 @@ def run(ctx):
                          "PARTIAL CLAIM: only the bounds and alignment of the modelled address arithmetic are proved. NOT exhibitable by the model and NOT claimed: "
                          "lifetimes of heap blocks referenced by raw row pointers (merge_blocks_from / take_blocks), initialisation of freshly reserved block bytes, "
                          "data races between partitions, the vtable downcasts in operators/mod.rs and functions/*/mod.rs, usize overflow of the size computations",
-                         "vlib/tables_layout.py source scanner (MAX_INLINE_LEN, the literals in is_inline/is_reference, inline buffer length, ROW_INDEX_WIDTH)",
+                         "vlib/tables_layout.py source scanner (MAX_INLINE_LEN, the operator and right-hand side of EVERY inline/reference length test: array push, "
+                         "StringView and StringPtr is_inline / is_reference, the four constructor assertions; inline buffer length; ROW_INDEX_WIDTH; that the row writer "
+                         "decides on `!view.is_inline()` and that compute_heap_sizes tests the validity of the selected row); the real StringView/StringPtr predicates are "
+                         "also evaluated for every length 0..40 by gv_layout and compared",
                          "vlib/c16.py PHYS: the DataType -> PhysicalType map (decimal64 -> Int64, date32 -> Int32, timestamp -> Int64, ...)",
                          "harness/src/bin/gv_layout.rs and the add-only cfg(glaredb_verif) hooks RowLayout::verif_parts, AggregateLayout::verif_parts, SortLayout::verif_parts, "
                          "row_collection::verif_prepare_append (runs the real RowBlocks::prepare_append), hash_aggregate::verif_hooks",
@@ -226,7 +429,9 @@ def run(ctx):
                          "extraction (ExtrOcamlBasic) + ocaml/layout.ml parsing/printing",
                          "the pointer-based readers/writers (row_layout.rs write_array / read_array, sort_layout.rs write_key_array, row_matcher.rs) are tied to the model only through the offsets they use; their own code is not modelled"],
         "theorems": obligations,
-        "evaluations": s["n"], "distinct_nontrivial": s["distinct"],
+        "evaluations": s["n"] + rt["n"] + sq["n"], "distinct_nontrivial": s["distinct"],
+        "row_collection_roundtrip": {"cases": rt["cases"], "strings": rt["n"]},
+        "sql_strings_around_inline_threshold": {"queries_checked": sq["n"], "engines_a": sq["cases_a"], "engines_b": sq["cases_b"]},
         "rule": "one evaluation = one layout / append sequence / view batch / mask batch computed by the real code and by the extracted model, compared field by field "
                 "(every offset, width, validity width, heap flag, byte_offset(3,c), aggregate offsets/base_align/row_width, sort offsets/widths/compare_width/row_width/heap mapping, "
                 "every row pointer as (block, byte offset) and every block's (capacity, reserved)); distinct = distinct model outputs",
@@ -242,7 +447,9 @@ def run(ctx):
         "prepare_append_never_overfills assumes row_width <> 0 (a zero width panics: C16_prepare_append_zero_width_panics) and the block invariant reserved <= capacity; "
         "termination needs row_capacity <> 0 (C16_prepare_append_zero_capacity_diverges); the engine rejects `SET batch_size TO 0`",
         "agg_state_aligned assumes power-of-two alignments (Rust's align_of; checked on every observed state) and a buffer base that is a multiple of base_align (DbVec::new_uninit_with_align is not modelled)",
-        "heap block sizing (compute_heap_sizes) and the hash-join directory sizing (floating point load factor) are not modelled; only the mask arithmetic is",
+        "heap sizing is modelled for Utf8/Binary columns (compute_heap_sizes over validity, array selection and row selection; List/Struct are not-implemented errors in the code); "
+        "the hash-join directory sizing (floating point load factor) is not modelled, only the mask arithmetic is",
+        "the string round trip model tracks WHICH union variant is written and read (inline / reference), not the bytes; the bytes are checked by the real RowCollection round trip and the SQL stage",
         "a row_capacity of 0 is never run on the real code (it would not terminate)"]
     out["wall"] = time.time() - t0
     return out
